@@ -27,6 +27,42 @@ for name in sorted(os.listdir(os.path.join(VERIF, "seeded"))):
         "yes" if m.get("caught_by_own_property_check") else
         ("by another check" if m.get("caught_by_any_check") else "NO"),
         (rules or "-") + ((" — " + m["history"]) if m.get("history") else "")))
+import sys
+if "--compact" in sys.argv:
+    # one short line per seed: the rules of its OWN property's check that
+    # fire in the final sweep, and whether it was caught on arrival
+    print("| seed | own check, final sweep | other checks that fire |")
+    print("|---|---|---|")
+    for name in sorted(os.listdir(os.path.join(VERIF, "seeded"))):
+        mp = os.path.join(VERIF, "seeded", name, "meta.json")
+        if not os.path.exists(mp):
+            continue
+        m = json.load(open(mp))
+        if m.get("property") is None:
+            continue
+        al = m.get("checks_alarmed", {})
+        own = al.get(m["property"], {})
+        others = sorted(k for k, v in al.items()
+                        if k != m["property"] and v.get("exit") == 1)
+        print("| %s | %s | %s |" % (
+            name, ", ".join(own.get("rules", [])) or
+            ("NOT CAUGHT (exit %s)" % own.get("exit")),
+            " ".join(others) or "-"))
+    print()
+    print("| refactoring | final sweep |")
+    print("|---|---|")
+    for name in sorted(os.listdir(os.path.join(VERIF, "seeded"))):
+        mp = os.path.join(VERIF, "seeded", name, "meta.json")
+        if not os.path.exists(mp):
+            continue
+        m = json.load(open(mp))
+        if m.get("property") is not None or not name.startswith("refactor"):
+            continue
+        fa, ae = m.get("false_alarms", []), m.get("analysis_errors", [])
+        print("| %s | %s |" % (name, ("FALSE ALARM: " + ", ".join(fa)) if fa
+                               else ("exit 2 in " + ", ".join(ae)) if ae
+                               else "silent on all 20 checks"))
+    raise SystemExit(0)
 print("| seed | property | change | needs, to manifest | caught by its own check | rules that fire (final sweep) — history |")
 print("|---|---|---|---|---|---|")
 print("\n".join(rows))
